@@ -15,11 +15,11 @@ from shapes import prod, fmt, fmt_lists
 
 ID = 'C14'
 LEVEL = 'proof'
-RULE = ('probe machine: every composition of a menu of 49 (1..4 functors: unary/binary/ternary probes in every position, swap/dup/dig/bury, '
-        'every parenthesisation of the 3- and 4-chains) x every split of the operand list into chunks (exact, over- and under-supplied), '
-        'attribute/operand interleavings; functors: 43 functors of array/functional (indexing, ufunc, reduce, accumulate, outer, matmul, pooling, norms, activations) '
-        'x every curry split and attribute-before/after-operand form vs the direct view, random shapes dim 1..4; extraction: 31 view trees of depth 1..4 '
-        '(operand identity by address, apply(composition, operands) vs view, compute graphs incl. aliased leaves). non-trivial = more than one functor or more than one chunk; every functor / extraction case')
+RULE = ('probe machine: every composition of a menu of 75 (1..5 functors: probes of arity 1..5 in every position, swap/dup/dig/bury left-most, in the middle and right-most, '
+        'every parenthesisation of 3- and 4-chains, (f*g)*(h*k), prebuilt composition blocks multiplied with themselves / each other / functors) x every split of the operand list into chunks '
+        '(exact, over- and under-supplied), attribute/operand interleavings for arity 1..5; functors: 43 functors of array/functional (indexing, ufunc, reduce, accumulate, outer, matmul, pooling, norms, activations) '
+        'x every curry split and attribute-before/after-operand form vs the direct view, random shapes dim 1..4; extraction: 46 view trees of depth 1..4 with the sub-view in every operand position of unary / binary / ternary nodes '
+        '(operand identity by address, static arity, apply(composition, operands) vs view, compute graphs incl. aliased leaves). non-trivial = more than one functor or more than one chunk; every functor / extraction case')
 EXHAUSTIVE = {'quick': False, 'thorough': False}
 ANCHORS = {'NmVerif.Functional.applyFn': 'functional::apply_function_t<functor_t>::operator() (functor.hpp:368-428), functor_t::operator[] / operator()',
            'NmVerif.Functional.applyComp/run': 'functional::apply_function_t<functor_composition_t>::operator() (functor.hpp:450-528)',
@@ -27,11 +27,12 @@ ANCHORS = {'NmVerif.Functional.applyFn': 'functional::apply_function_t<functor_t
            'NmVerif.Functional.swapF/dupF/digF/buryF': 'combinator::swap / dup / dig_n / bury_n (combinator.hpp)',
            'NmVerif.Functional.View.compile': 'functional::get_function_composition (function_composition.hpp:14-128)',
            'NmVerif.Functional.View.operandsOf': 'functional::get_function_operands (functor.hpp:776-812)',
+           'NmVerif.Functional.Comp.arity': 'functor_composition_t::arity (functor.hpp:134-146), demanded equal to the operand count by functional::apply (functor.hpp:833-835)',
            'NmVerif.Functional.IView.graph': 'functional::get_compute_graph (compute_graph.hpp:14-275) over utility::ct_map / ct_digraph',
            'NmVerif.Functional.generateAlias': 'index::generate_alias (index/alias.hpp:60-88)'}
 MANIFEST = dict(
-    text='Proof: Lean theorems over ARBITRARY functors (any arity, any operand/attribute types): currying in every split equals one call (curry_any_split, curry_chunks), composition = apply the right-most functor and pass the rest on (comp_apply, comp_two), parenthesisation irrelevant (comp_assoc), combinators are the stated permutations, and a compiler-correctness theorem for extraction (compile_correct/compile_frame: extracted composition applied to extracted operands = host evaluation, by induction on the view tree) on the trees where it holds — with a machine-checked counterexample outside; tied to the C++ by differential runs of the real functor machinery (probe functors), of the array/functional functors against direct view calls, and of extraction / operand identity / compute graphs on view trees.',
-    note='Lean kernel + propext/Classical.choice/Quot.sound. Node-id uniqueness of the compute graph is not a theorem (ids are hashes mod 1033 and graph-size counters): checked per explored program. Known findings: extraction is wrong when a view operand is not the first operand; compute-graph ids of sibling sub-views over un-aliased leaves collide. Repaired: dangling reference in get_function_composition (regression programs kept; ASan build in the thorough tier).',
+    text='Proof: Lean theorems over ARBITRARY functors (any arity, any operand/attribute types): currying in every split equals one call (curry_any_split, curry_chunks), composition = apply the right-most functor and pass the rest on (comp_apply, comp_two), parenthesisation irrelevant (comp_assoc), combinators are the stated permutations, and a compiler-correctness theorem for extraction (compile_correct/compile_frame: extracted composition applied to extracted operands = host evaluation, by induction on the view tree) on the trees where it holds — with a machine-checked counterexample outside — and compile_arity (the static arity of the extracted composition is the number of extracted operands for every well-formed tree, so functional::apply compiles); tied to the C++ by differential runs of the real functor machinery (probe functors), of the array/functional functors against direct view calls, and of extraction / operand identity / compute graphs on view trees.',
+    note='Lean kernel + propext/Classical.choice/Quot.sound. Node-id uniqueness of the compute graph is not a theorem (ids are hashes mod 1033 and graph-size counters): checked per explored program. Known findings: extraction is wrong when a view operand is not the first operand (also for view::softmax of the library itself; repair proposed: fixes/C14-extract.nonfirst-view-operand.diff, follow-up on branch w4/c1314-postfix); compute-graph ids of sibling sub-views over un-aliased leaves collide (no small repair: ids are part of the view type). Repaired: dangling reference in get_function_composition (regression programs kept; ASan build in the thorough tier).',
     technique='Lean 4 proofs over an abstract stack machine (compiler correctness by mutual structural induction) + differential correspondence')
 ASSUMPTIONS = ['functors are pure functions of (attributes, operands)',
                'compute-graph node ids pairwise distinct (hypothesis of graph_nodes / graph_edges; explored, not proved)']
@@ -43,7 +44,7 @@ def harness_specs(tier):
     if tier == 'thorough':
         # extraction under ASan + UBSan (lifetime errors of get_function_composition / get_function_operands are results)
         san = [dict(name='h_c14_ext%d_san' % g, src='h_c14_ext.cpp', flavour='san', extra=['-DC14_GROUP=%d' % g]) for g in SAN_GROUPS]
-    return san + ([dict(name='h_c14_probe', src='h_c14_probe.cpp', flavour='fast')] +
+    return san + ([dict(name='h_c14_probe%d' % g, src='h_c14_probe.cpp', flavour='fast', extra=['-DC14_PROBE_GROUP=%d' % g]) for g in PROBE_GROUPS] +
             [dict(name='h_c14_ext%d' % g, src='h_c14_ext.cpp', flavour='fast', extra=['-DC14_GROUP=%d' % g]) for g in EXT_GROUPS] +
             [dict(name='h_c14_fn%d' % g, src='h_c14_fn.cpp', flavour='fast', extra=['-DC14_FN_GROUP=%d' % g]) for g in FN_GROUPS])
 
@@ -51,7 +52,7 @@ def harness_specs(tier):
 # ---------------------------------------------------------------------------------------------------------------
 # probe machine: reference semantics (independent of the stack machine: follows the parenthesisation tree)
 # ---------------------------------------------------------------------------------------------------------------
-ARITY = {'p1': 1, 'p2': 2, 'p3': 3, 'swap': 2, 'dup': 1, 'dig1': 2, 'dig2': 3, 'bury1': 2, 'bury2': 3}
+ARITY = {'p1': 1, 'p2': 2, 'p3': 3, 'p4': 4, 'p5': 5, 'swap': 2, 'dup': 1, 'dig1': 2, 'dig2': 3, 'bury1': 2, 'bury2': 3}
 
 
 class Partial(Exception):
@@ -124,14 +125,27 @@ def compositions(n):
             yield [first] + rest
 
 
-MENU = ['p1', 'p2', 'p3', 'swap', 'dup', 'dig1', 'dig2', 'bury1', 'bury2',
+# one harness TU per group (h_c14_probe.cpp, -DC14_PROBE_GROUP=g)
+PROBE_MENU = {
+    1: ['p1', 'p2', 'p3', 'swap', 'dup', 'dig1', 'dig2', 'bury1', 'bury2',
         'M(p1,p1)', 'M(p1,p2)', 'M(p2,p1)', 'M(p2,p2)', 'M(p1,p3)', 'M(p3,p1)', 'M(p3,p2)', 'M(p2,p3)',
         'M(p2,swap)', 'M(p2,dup)', 'M(p3,dig2)', 'M(p3,bury2)', 'M(dup,p1)', 'M(swap,swap)', 'M(bury2,dig2)', 'M(p2,dig1)', 'M(p2,bury1)',
         'M(M(p2,p1),dig2)', 'M(p2,M(p1,dig2))', 'M(M(p1,p2),p2)', 'M(p1,M(p2,p2))', 'M(M(p2,swap),p2)', 'M(p2,M(swap,p2))',
-        'M(M(p2,p2),dup)', 'M(p2,M(p2,dup))', 'M(M(p3,bury2),p1)', 'M(p3,M(bury2,p1))', 'M(M(p2,p3),p2)', 'M(p2,M(p3,p2))',
-        'M(M(p2,p2),M(p1,bury2))', 'M(p2,M(p2,M(p1,bury2)))', 'M(M(M(p2,p2),p1),bury2)', 'M(M(p2,M(p2,p1)),bury2)', 'M(p2,M(M(p2,p1),bury2))',
+        'M(M(p2,p2),dup)', 'M(p2,M(p2,dup))', 'M(M(p3,bury2),p1)', 'M(p3,M(bury2,p1))', 'M(M(p2,p3),p2)', 'M(p2,M(p3,p2))'],
+    2: ['M(M(p2,p2),M(p1,bury2))', 'M(p2,M(p2,M(p1,bury2)))', 'M(M(M(p2,p2),p1),bury2)', 'M(M(p2,M(p2,p1)),bury2)', 'M(p2,M(M(p2,p1),bury2))',
         'M(M(p1,p2),M(swap,dup))', 'M(p1,M(p2,M(swap,dup)))', 'M(M(p2,p1),M(p2,dig2))', 'M(M(M(p2,p1),p2),dig2)',
-        'M(M(p3,p1),M(p2,p2))', 'M(p3,M(p1,M(p2,p2)))']
+        'M(M(p3,p1),M(p2,p2))', 'M(p3,M(p1,M(p2,p2)))'],
+    # arity 4 / 5 functors; combinators left-most, in the middle, right-most
+    3: ['p4', 'p5', 'M(p4,p2)', 'M(p2,p4)', 'M(p1,p5)', 'M(p5,dup)', 'M(p4,dig2)',
+        'M(swap,p2)', 'M(dig2,p1)', 'M(bury2,p2)', 'M(dup,dup)', 'M(p2,M(dup,p1))', 'M(M(p2,dup),p1)',
+        'M(p3,M(dig2,p3))', 'M(M(p3,dig2),p3)', 'M(M(swap,p2),swap)', 'M(swap,M(p2,swap))'],
+    # prebuilt blocks (a composition object built once) multiplied with themselves, with each other and with functors
+    4: ['M(M(p2,p1),M(p2,p1))', 'M(M(p2,swap),M(p2,p1))', 'M(M(p2,p1),M(p2,swap))', 'M(M(dup,p1),M(p2,p1))', 'M(M(p2,p1),M(dup,p1))',
+        'M(p1,M(p2,p1))', 'M(M(p2,p1),p3)', 'M(M(M(p2,p1),M(p2,p1)),M(p2,swap))', 'M(M(p2,p1),M(M(p2,p1),M(p2,swap)))'],
+}
+PROBE_GROUPS = sorted(PROBE_MENU)
+MENU = [(c, g) for g in PROBE_GROUPS for c in PROBE_MENU[g]]
+ATTR_PROBES = [('p1', 1), ('p2', 1), ('p3', 1), ('p4', 3), ('p5', 3)]
 
 
 def nfun(t):
@@ -139,7 +153,8 @@ def nfun(t):
 
 
 def probe_cases(tier, rng):
-    for comp in MENU:
+    for comp, grp in MENU:
+        hname = 'h_c14_probe%d' % grp
         t = parse_term(comp)
         n = needed(t)
         nf = nfun(t)
@@ -168,12 +183,12 @@ def probe_cases(tier, rng):
                     oracle = 'ok values ' + ';'.join(tree_apply(t, ops))
                 except Partial:
                     oracle = None      # still curried: the model is the judge
-            yield Case('c14_probe comp=%s steps=%s' % (comp, steps), 'h_c14_probe', oracle=oracle,
+            yield Case('c14_probe comp=%s steps=%s' % (comp, steps), hname, oracle=oracle,
                        nontrivial=(nf > 1 or len(cs) > 1),
                        tags=['probe', 'nfun=%d' % nf, 'chunks=%d' % len(cs), 'supply=' + ('exact' if sum(cs) == n else 'over' if sum(cs) > n else 'under'),
                              'spec' if oracle else 'model-only'])
     # attributes and operands in every interleaving (single probe functors)
-    for name in ['p1', 'p2', 'p3']:
+    for name, grp in ATTR_PROBES:
         k = ARITY[name]
         for na in [1, 2]:
             attrs = [str(v) for v in rng.sample(range(90, 100), na)]
@@ -192,7 +207,7 @@ def probe_cases(tier, rng):
                             steps.append('a:' + attrs[ai]); ai += 1
                         steps.append('o:' + ','.join(c))
                     oracle = 'ok values %s(%s)' % (name, ','.join(ops + attrs))
-                    yield Case('c14_probe comp=%s steps=%s' % (name, ';'.join(steps)), 'h_c14_probe', oracle=oracle,
+                    yield Case('c14_probe comp=%s steps=%s' % (name, ';'.join(steps)), 'h_c14_probe%d' % grp, oracle=oracle,
                                tags=['probe', 'attrs=%d' % na, 'chunks=%d' % len(cs)])
 
 
@@ -319,6 +334,7 @@ def _ext_progs():
     add('negative', 1, 'negative(0)', lambda rng: ([rshape(rng)], {}))
     add('matmul', 1, 'matmul(0,1)', g_matmul)
     add('concatenate', 1, 'concatenate(0,1)', g_concat)
+    add('raw_matmul', 1, 'matmul(0,1)', lambda rng: ([[2, 3], [3, 2]], {}))      # bounded C arrays as leaves (fixed in the harness)
     add('where', 2, 'where(bcast(0),bcast(1),bcast(2))', g_where, nonfirst=True, data='cond')
     add('vstack', 2, 'concatenate0(reshape_v(0),reshape_v(1))', g_vstack, nonfirst=True)
     add('neg_add', 2, 'negative(add(0,1))', g_bin, graph=True)
@@ -343,12 +359,37 @@ def _ext_progs():
     add('al_neg_add_mul', 7, 'negative(add(multiply(a0,a1),a1))', g_same3, graph=True, bview=True)
     add('al_add_mul2', 6, 'add(a0,multiply(a1,a2))', g_same3, graph=True, nonfirst=True)
     add('al_neg_sq', 6, 'negative(multiply(a0,a0))', lambda rng: ([rshape(rng, cap=12)], {}), graph=True)
+    # ---- the sub-view in EVERY operand position (first position: in-domain; any other: the known class) ----
+    def g_mm_x_tr(rng):
+        m, k, n = rng.randint(1, 4), rng.randint(1, 4), rng.randint(1, 4); return [[m, k], [n, k]], dict(axes=[1, 0])
+    def g_mm_tr_x(rng):
+        m, k, n = rng.randint(1, 4), rng.randint(1, 4), rng.randint(1, 4); return [[k, m], [k, n]], dict(axes=[1, 0])
+    def g_sub_x_neg_tr(rng):
+        s = rshape(rng); ax = perm(rng, len(s)); ts = [s[i] for i in ax]; return [bpartner(rng, ts), s], dict(axes=ax)
+    def g_sum_add_x_tr(rng):
+        s = rshape(rng, min_rank=2); ax = perm(rng, len(s)); ts = [s[i] for i in ax]
+        return [bpartner(rng, ts), s], dict(axes=ax, axis=rng.randrange(len(s)))
+    add('sub_x_neg', 8, 'subtract(0,negative(1))', g_bin, graph=True, nonfirst=True)
+    add('matmul_x_tr', 8, 'matmul(0,transpose(1))', g_mm_x_tr, nonfirst=True)
+    add('matmul_tr_x', 8, 'matmul(transpose(0),1)', g_mm_tr_x)
+    add('concat_x_flip', 8, 'concatenate(0,flip(1))', g_concat, nonfirst=True)
+    add('concat_flip_x', 8, 'concatenate(flip(0),1)', g_concat)
+    add('where_v0', 9, 'where(bcast(negative(0)),bcast(1),bcast(2))', g_where, nonfirst=True, data='cond')
+    add('where_v1', 9, 'where(bcast(0),bcast(negative(1)),bcast(2))', g_where, nonfirst=True, data='cond')
+    add('where_v2', 9, 'where(bcast(0),bcast(1),bcast(negative(2)))', g_where, nonfirst=True, data='cond')
+    add('add_x_mul_x_neg', 9, 'add(0,multiply(1,negative(2)))', g_tri, nonfirst=True)
+    add('mul_add_x_neg_x', 9, 'multiply(add(0,negative(1)),2)', g_tri, nonfirst=True)
+    add('sub_x_neg_tr', 10, 'subtract(0,negative(transpose(1)))', g_sub_x_neg_tr, nonfirst=True)
+    add('d4_neg_add_x_mul_neg', 10, 'negative(add(0,multiply(negative(1),2)))', g_tri, nonfirst=True)
+    add('d4_add_nmn_sxn', 10, 'add(negative(multiply(negative(0),1)),subtract(2,negative(3)))', g_quad, nonfirst=True)
+    add('d4_sum_add_x_tr_neg', 10, 'reduce_add(add(0,transpose(negative(1))))', g_sum_add_x_tr, nonfirst=True)
+    add('d4_neg_sub_mul_neg', 10, 'negative(subtract(multiply(negative(0),1),2))', g_tri, bview=True)
     return pr
 
 
 EXT = _ext_progs()
-EXT_GROUPS = [1, 2, 3, 4, 5, 6, 7]
-SAN_GROUPS = [2, 3, 5, 6, 7]      # the groups with binary ufuncs over view operands / depth 3-4 trees
+EXT_GROUPS = [1, 2, 3, 4, 5, 6, 7, 8, 9, 10]
+SAN_GROUPS = [2, 3, 5, 6, 7, 8, 10]      # the groups with binary ufuncs over view operands / depth 3-4 trees
 
 
 def parse_kv(ans):
@@ -373,6 +414,8 @@ def make_extract_cmp(env, params):
         d = parse_kv(ans); c = {'leaves': d.get('leaves')}
         if 'nfun' in d:
             c['nfun'] = d['nfun']
+        if 'arity' in d:
+            c['arity'] = d['arity']
         if 'term' in d:          # model: symbolic
             for key, src in (('result', 'term'), ('host', 'view')):
                 try:
@@ -484,7 +527,8 @@ def ext_cases(tier, rng):
             made += 1
             req = ' '.join(('c14_extract prog=%s shapes=%s %s data=%s' % (name, fmt_lists(shapes), fmt_params(params), pg['data'])).split())
             off = pg['nonfirst']
-            oracle = 'ok leaves=%s result=%s' % (fmt(tree_leaves(t)), fmt_arr(res))
+            # fn::apply demands (static_assert) that the arity of the extracted function is the number of extracted operands
+            oracle = 'ok leaves=%s arity=%d result=%s' % (fmt(tree_leaves(t)), len(tree_leaves(t)), fmt_arr(res))
             yield Case(req, h, dom=not off, oracle=oracle, mreq='c14_extract tree=%s' % tplain, cmp=make_extract_cmp(env, params),
                        tags=['extract', 'prog=' + name, 'depth=%d' % tree_depth(t)] + (['nonfirst'] if pg['nonfirst'] else []) + (['bview'] if pg['bview'] else []))
             if pg['graph'] and made <= 2:
